@@ -2,6 +2,7 @@
 //! (metamorphic: inject the empty positive look-ahead `(?=)` at every site).
 
 use crate::common::*;
+use crate::counts;
 use crate::engine::{self, Out};
 use crate::kf;
 use crate::refsweep::weight;
@@ -121,14 +122,19 @@ pub fn run_c03(cx: &Ctx) -> i32 {
         });
         t
     });
-    let t = Tally::merge_all(tallies);
+    let mut t = Tally::merge_all(tallies);
+    let (dense, top) = if cx.quick() { (300, 5_000) } else { (2100, 5_000) };
+    let t4 = counts::sweep(counts::Which::C03, dense, top);
+    t.count("large_count_sweep_programs", t4.programs);
+    t.count("large_count_sweep_evaluations", t4.evaluations);
+    t.merge(t4);
     finish(
         cx,
         t,
         Finish {
             rule: format!(
-                "every base pattern of {} x every single injection site of (?=) (before and after every AST node, at every depth; texts up to length {}) plus the all-sites variant (texts up to length {}) x every text over {:?} x every offset; base and variant are both run on the real crate and every group is compared (metamorphic, no reference model); variants that no longer compile are skipped; non-trivial = compared cases with a match; counters report how many injections changed the engine class (whole-pattern hand-off -> VM) or the number of Delegate instructions",
-                space.describe(), single_site_len, max_len, alphabet
+                "every base pattern of {} x every single injection site of (?=) (before and after every AST node, at every depth; texts up to length {}) plus the all-sites variant (texts up to length {}) x every text over {:?} x every offset; base and variant are both run on the real crate and every group is compared (metamorphic, no reference model); variants that no longer compile are skipped; non-trivial = compared cases with a match; counters report how many injections changed the engine class (whole-pattern hand-off -> VM) or the number of Delegate instructions; plus a {}",
+                space.describe(), single_site_len, max_len, alphabet, counts::describe(counts::Which::C03, dense, top)
             ),
             exhaustive: true,
             bounds: jobj! {"space" => space.describe(), "max_text_len" => max_len},
